@@ -1,6 +1,6 @@
 (* C07 — PEL selection follows the documented class / severity / --only rules. *)
 From Coq Require Import List NArith Bool Arith.
-From PV Require Import Base.Bytes Base.PelTypes Model.Select Spec.SelectRules Gen.Tables Proofs.SelectFacts.
+From PV Require Import Base.Bytes Base.PelTypes Model.Select Spec.SelectRules Gen.Tables Proofs.SelectFacts Gen.SelectGen Proofs.SelectGenFacts.
 From PV Require Spec.PublishedTables.
 Import ListNotations.
 Open Scope N_scope.
@@ -42,6 +42,19 @@ Theorem C07_lookup_bypass : forall c u, every c = false -> term c = false -> svc
   only c = false -> sevs c = [] -> lookup c = true -> consider c u = true.
 Proof. exact lookup_considers_all. Qed.
 Print Assumptions C07_lookup_bypass.
+
+(* ---- the tie to the source itself ----
+   Gen/SelectGen.v is produced on every run from the SOURCE TEXT of considerPEL, considerPELIfSeverityMatches,
+   UserHeader.isHidden and UserHeader.isServiceable (harness/translate_select.py, a fail-closed Python-ast translator).  What the
+   source says now is the model the theorems above are about, for every configuration and every user header: *)
+Theorem C07_source_is_model : forall c u, gen_consider c u = consider c u.
+Proof. exact gen_consider_is_model. Qed.
+Print Assumptions C07_source_is_model.
+
+(* ... and so the source text itself follows the documented rules *)
+Theorem C07_source_rules : forall c u, lookup c = false -> gen_consider c u = select c u.
+Proof. intros c u H. rewrite gen_consider_is_model. apply C07_rules. exact H. Qed.
+Print Assumptions C07_source_rules.
 
 (* non-vacuity: severity 0x05 is Informational (group 0), not Critical (group 5) *)
 Example C07_example :
